@@ -33,10 +33,10 @@ macro "asgc_tac" h:term "," hnode:term : tactic => `(tactic| (
   simp only [List.mem_cons, List.mem_nil_iff, or_false] at hq
   first
     | (rcases hq with e | e | e <;> subst e <;>
-        first | exact AInv.cpOk $h _ _ cp $hnode hcp | (simp [BuildNode.new, BuildNode.newWithList] at hcp))
+        first | exact AInv.cpOk $h _ _ cp $hnode hcp | (simp [BuildNode.new, BuildNode.newWithList, BuildNode.newWithJump, BuildNode.newWithJumpAndEnd] at hcp))
     | (rcases hq with e | e <;> subst e <;>
-        first | exact AInv.cpOk $h _ _ cp $hnode hcp | (simp [BuildNode.new, BuildNode.newWithList] at hcp))
-    | (subst hq; first | exact AInv.cpOk $h _ _ cp $hnode hcp | (simp [BuildNode.new, BuildNode.newWithList] at hcp))))
+        first | exact AInv.cpOk $h _ _ cp $hnode hcp | (simp [BuildNode.new, BuildNode.newWithList, BuildNode.newWithJump, BuildNode.newWithJumpAndEnd] at hcp))
+    | (subst hq; first | exact AInv.cpOk $h _ _ cp $hnode hcp | (simp [BuildNode.new, BuildNode.newWithList, BuildNode.newWithJump, BuildNode.newWithJumpAndEnd] at hcp))))
 
 /-- every assigned node is the visited node or was pushed -/
 macro "asgd_tac" : tactic => `(tactic| (
@@ -123,7 +123,7 @@ theorem handleReapply_attr (h : AInv tree m0 (some ni) ctx) :
   | initialized =>
     dsimp only
     try simp only [hpni]
-    exact attr_emit h [some ni] rfl rfl rfl (by simp [pushInstr]) (by simp)
+    exact attr_emit h [some ni, some ni] rfl rfl rfl (by simp [pushInstr]) (by simp)
 
 theorem handleBinaryOperationWithPush_attr (h : AInv tree m0 (some ni) ctx) (ins : Instruction) (lr : Bool) :
     Sat (AInv tree m0 none) (handleBinaryOperationWithPush ins lr ctx ni pn) := by
